@@ -31,30 +31,32 @@ import (
 // ---------------------------------------------------------------- node-local configuration
 
 type nodeCfg struct {
-	MinGas  string `json:"minimum_gas_prices"`
-	Tracer  string `json:"evm_tracer"`
-	Procs   int    `json:"gomaxprocs"` // 0 = leave as is
-	CheckTx bool   `json:"mempool_activity"`
+	MinGas  string     `json:"minimum_gas_prices"`
+	Tracer  string     `json:"evm_tracer"`
+	Procs   int        `json:"gomaxprocs"` // 0 = leave as is
+	CheckTx bool       `json:"mempool_activity"`
+	Traffic trafficCfg `json:"request_traffic"` // what the node serves besides executing blocks (traffic_test.go)
 }
 
 // what an operator could put into app.toml / flags; replica 0 is the plain node
 func nodeCfgs(denom string) []nodeCfg {
 	return []nodeCfg{
 		{MinGas: "", Tracer: "", Procs: 0, CheckTx: false},
-		{MinGas: "1000000000000000" + denom, Tracer: "access_list", Procs: 1, CheckTx: true},
-		{MinGas: "7" + denom, Tracer: "struct", Procs: 4, CheckTx: false},
-		{MinGas: "", Tracer: "json", Procs: 2, CheckTx: true},
-		{MinGas: "123456789" + denom, Tracer: "markdown", Procs: 8, CheckTx: false},
+		{MinGas: "1000000000000000" + denom, Tracer: "access_list", Procs: 1, CheckTx: true, Traffic: trafficCfg{Historic: true}},
+		{MinGas: "7" + denom, Tracer: "struct", Procs: 4, CheckTx: true, Traffic: trafficCfg{Window: true, Simulate: true, Ghost: true, Reverse: true}},
+		{MinGas: "", Tracer: "json", Procs: 2, CheckTx: true, Traffic: trafficCfg{Historic: true, Ghost: true}},
+		{MinGas: "123456789" + denom, Tracer: "markdown", Procs: 8, CheckTx: false, Traffic: trafficCfg{Window: true}},
 		{MinGas: "", Tracer: "access_list", Procs: 3, CheckTx: false},
-		{MinGas: "1" + denom, Tracer: "", Procs: 16, CheckTx: true},
-		{MinGas: "999999999999999999999" + denom, Tracer: "struct", Procs: 1, CheckTx: true},
+		{MinGas: "1" + denom, Tracer: "", Procs: 16, CheckTx: true, Traffic: trafficCfg{Historic: true, Window: true, Simulate: true, Ghost: true}},
+		{MinGas: "999999999999999999999" + denom, Tracer: "struct", Procs: 1, CheckTx: true, Traffic: trafficCfg{Historic: true, Reverse: true}},
 	}
 }
 
 type replica struct {
-	idx int
-	c   *Chain
-	cfg nodeCfg
+	idx         int
+	c           *Chain
+	cfg         nodeCfg
+	firstHeight int64 // oldest height the traffic asks about (committed after the set-up)
 }
 
 // ---------------------------------------------------------------- world
@@ -85,6 +87,12 @@ type world struct {
 
 	nextFresh uint64
 	used      map[common.Address]bool // senders that already have a transaction in the block being generated
+
+	side         *Sidecar
+	trafficAcc   *itutiltypes.TestAccount // signs the traffic's probe transactions; never has a transaction in a block
+	nextDenom    int                      // next pool denomination without a contract
+	newCpcs      []common.Address         // ERC-20 precompiles deployed by message during the history
+	pendingFresh *common.Address          // deployed in the previous block: the next block begins with calls to it
 }
 
 func e18(n int64) *big.Int { return new(big.Int).Mul(big.NewInt(n), new(big.Int).Exp(big.NewInt(10), big.NewInt(18), nil)) }
@@ -103,9 +111,9 @@ func fixedAddr(tag byte, i int) common.Address {
 	return common.BytesToAddress([]byte{0xC0, 0x01, tag, 0, 0, 0, 0, 0, 0, 0, 0, 0, 0, 0, 0, 0, 0, 0, byte(i >> 8), byte(i)})
 }
 
-func newWorld(t *testing.T, k int) *world {
+func newWorld(t *testing.T, k int, side *Sidecar) *world {
 	ref := NewChain(t, time.Time{})
-	w := &world{t: t, ref: ref, byAddr: map[common.Address]*itutiltypes.TestAccount{}, valRank: map[string]int64{}}
+	w := &world{t: t, ref: ref, side: side, byAddr: map[common.Address]*itutiltypes.TestAccount{}, valRank: map[string]int64{}}
 	w.multi, w.sink, w.reverter, w.invalid = fixedAddr(1, 1), fixedAddr(1, 2), fixedAddr(1, 3), fixedAddr(1, 4)
 	w.logger, w.store, w.clock = fixedAddr(1, 5), fixedAddr(1, 6), fixedAddr(1, 7)
 	w.stakingCpc = cpctypes.CpcStakingFixedAddress
@@ -120,6 +128,7 @@ func newWorld(t *testing.T, k int) *world {
 	for _, s := range w.senders {
 		w.byAddr[s.GetEthAddress()] = s
 	}
+	w.trafficAcc = ref.DetAccount("twin-traffic", 0)
 	cfgs := nodeCfgs(ref.Denom())
 	for i := 0; i < k; i++ {
 		c := NewTwinReplica(t, ref, time.Time{})
@@ -131,6 +140,9 @@ func newWorld(t *testing.T, k int) *world {
 	w.lead = w.reps[0].c
 	w.bond = w.lead.Denom()
 	w.denoms = []string{w.bond, "utwo", "uthree"}
+	for i := 0; i < nPoolDenoms; i++ {
+		w.denoms = append(w.denoms, poolDenom(i))
+	}
 	w.chainID = w.lead.EvmChainID()
 
 	w.each(func(c *Chain) { w.setupReplica(c) })
@@ -166,6 +178,9 @@ func newWorld(t *testing.T, k int) *world {
 		w.accrue(c)
 	})
 	w.requireSameState("after set-up")
+	for _, rep := range w.reps {
+		rep.firstHeight = rep.c.Height - 1
+	}
 	return w
 }
 
@@ -217,6 +232,7 @@ func (w *world) setupReplica(c *Chain) {
 	placeContract(c, w.logger, rtLogger)
 	placeContract(c, w.store, rtStore)
 	placeContract(c, w.clock, BuildClock())
+	w.setupCpcDeployers(c)
 	// an application module account that holds nothing (touching it makes the commit loop try to delete it)
 	c.App.AccountKeeper.SetAccount(ctx, c.App.AccountKeeper.NewAccount(ctx, authtypes.NewEmptyModuleAccount("verif-empty-module")))
 	c.RunBlockVoted(nil)
@@ -250,8 +266,8 @@ var devNull *os.File
 
 func init() { devNull, _ = os.OpenFile(os.DevNull, os.O_WRONLY, 0) }
 
-// runOn executes the block under the replica's node-local conditions.
-func (r *replica) runOn(raws [][]byte) *abci.ResponseFinalizeBlock {
+// runOn executes the block under the replica's node-local conditions, its own request traffic included.
+func (r *replica) runOn(w *world, raws [][]byte, tr *Rng) *abci.ResponseFinalizeBlock {
 	if r.cfg.Procs > 0 {
 		old := runtime.GOMAXPROCS(r.cfg.Procs)
 		defer runtime.GOMAXPROCS(old)
@@ -262,18 +278,41 @@ func (r *replica) runOn(raws [][]byte) *abci.ResponseFinalizeBlock {
 		os.Stdout, os.Stderr = devNull, devNull
 		defer func() { os.Stdout, os.Stderr = so, se }()
 	}
+	tc := r.cfg.Traffic
 	if r.cfg.CheckTx {
-		for _, bz := range raws {
+		for i := range raws {
+			bz := raws[i]
+			if tc.Reverse {
+				bz = raws[len(raws)-1-i]
+			}
 			_, _ = r.c.CheckTx(bz, false)
 		}
 	}
-	return r.c.RunBlockVoted(raws)
+	if tc.Simulate {
+		for _, bz := range raws {
+			_, _, _ = r.c.App.BaseApp.Simulate(bz)
+			w.side.Count("traffic:simulate_block_tx")
+		}
+	}
+	res, err := TwinFinalizeVoted(r.c, raws)
+	require.NoError(w.t, err)
+	if tc.Window {
+		w.windowTraffic(r, tr)
+	}
+	require.NoError(w.t, TwinCommit(r.c))
+	if tc.Historic {
+		w.historicTraffic(r, tr)
+	}
+	if tc.Ghost && tr.Chance(40) {
+		w.ghostDeploy(r, tr)
+	}
+	return res
 }
 
 func (w *world) describeCfgs() []string {
 	var out []string
 	for _, r := range w.reps {
-		out = append(out, fmt.Sprintf("replica %d: min-gas=%q tracer=%q gomaxprocs=%d mempool=%v", r.idx, r.cfg.MinGas, r.cfg.Tracer, r.cfg.Procs, r.cfg.CheckTx))
+		out = append(out, fmt.Sprintf("replica %d: min-gas=%q tracer=%q gomaxprocs=%d mempool=%v traffic=%s", r.idx, r.cfg.MinGas, r.cfg.Tracer, r.cfg.Procs, r.cfg.CheckTx, r.cfg.Traffic))
 	}
 	return out
 }
